@@ -270,7 +270,7 @@ func (x *Exec) valuesEqual(a, b Value) *Term {
 			}
 			return x.valuesEqual(va.val, vb.val)
 		case *AbsObj:
-			if va.dyn == nil && vb.fam && vb.nilT != nil {
+			if va.dyn == nil && vb.nilT != nil {
 				return vb.nilT
 			}
 			return tFalse
@@ -280,6 +280,12 @@ func (x *Exec) valuesEqual(a, b Value) *Term {
 			}
 		}
 	case *AbsObj:
+		if va.alt != nil {
+			return mkIte(va.alt.c, x.valuesEqual(va.alt.a, b), x.valuesEqual(va.alt.b, b))
+		}
+		if vb, ok := b.(*AbsObj); ok && vb.alt != nil {
+			return mkIte(vb.alt.c, x.valuesEqual(a, vb.alt.a), x.valuesEqual(a, vb.alt.b))
+		}
 		switch vb := b.(type) {
 		case *AbsObj:
 			if va.fam && vb.fam && va.name == vb.name && len(va.idx) == len(vb.idx) {
@@ -291,7 +297,7 @@ func (x *Exec) valuesEqual(a, b Value) *Term {
 			}
 			return mkBool(va == vb)
 		case *Iface:
-			if vb.dyn == nil && va.fam && va.nilT != nil {
+			if vb.dyn == nil && va.nilT != nil {
 				return va.nilT // comparison with nil
 			}
 			return tFalse // abstract shapes are non-nil and distinct from concrete ones
